@@ -91,6 +91,15 @@ CHECKS["C20"] = dict(
     technique="stateful property-based testing with a bounded-relief invariant over generated configurations",
 )
 
+CHECKS["C18"] = dict(
+    engine="conc",
+    category="exploration",
+    text="Four generated-input parts: (1) the LRU cache against a sequential model over generated op sequences with arbitrary sizes and capacities (two admissible recency models where the docs are silent, plus model-independent size invariants and a final drain); (2) the wait list against a single-threaded model of link / unlink-in-any-order / notify across ring wrap-around; (3) the wait list under 2-9 real threads following the two unlink protocols its callers use, including a thread that holds almost all 65 536 slots; (4) the coalescing queue under 2-16 real threads with a harness core that batches always / never / up to n / by input, checking own-output, exactly-once, policy and an entry-order bracket. A stall is declared only by an exact detector (every worker parked in an untimed futex wait with unchanged context-switch counts and no progress); a wall-clock budget only yields 'inconclusive'.",
+    design_ref="DESIGN.md §5 C18",
+    note="Thread schedules belong to the OS (perturbed by generated delays and CPU pinning); a violation found is exact, absence is weak evidence. Replays of threaded cases re-run the case up to 50 times.",
+    technique="property-based testing: sequential model (LRU, wait list) and generated multi-threaded stress with invariant oracles and an exact all-parked stall detector",
+)
+
 NOT_YET = {
 }
 
@@ -127,6 +136,7 @@ def main():
         },
         "engines": [
             {"name": "store-driver", "path": "harness/vstore/src/driver.rs", "serves_properties": sorted(k for k, v in CHECKS.items() if v["engine"] == "store-driver"), "kind_free_text": "single-threaded model-based step driver over KeyValueStore / LsmTree: generated op vectors interpreted against the real store (per-case directory on tmpfs) and an in-memory model; flush, compaction step, verifier pass and reopen are ops thanks to the step hooks"},
+            {"name": "conc", "path": "harness/c18/src/conc.rs", "serves_properties": ["C18"], "kind_free_text": "real OS threads running generated per-thread programs with generated delays / CPU pinning, invariant oracles, and an exact all-parked stall detector (per-thread /proc syscall state + context-switch counters)"},
             {"name": "pbt", "path": "harness/vcore", "serves_properties": sorted(CHECKS.keys()), "kind_free_text": "proptest TestRunner driven from per-property binaries; 16 worker processes, fixed case counts, seeds derived from VERIF_SEED; shrinking; JSON replay files; evidence written by the parent process"},
         ],
         "checks": checks,
